@@ -52,8 +52,9 @@ class Gen(object):
         self.exc = cfg.get("exc", DEFAULT_EXC)
         self.spawn_kinds = cfg.get("spawn_kinds", [])
         # weights: msg, act, tb, succ, raise, pause, spawn, reenter, plain_gen
-        self.w = list(cfg.get("w_ops", [6, 6, 1, 2, 1, 0, 0])) + [0, 0, 0, 0]
-        self.w = self.w[:11]
+        self.w = list(cfg.get("w_ops", [6, 6, 1, 2, 1, 0, 0])) + [0, 0, 0, 0, 0]
+        self.w = self.w[:12]
+        self.w[11] = cfg.get("w_handler", 0)
         self.w[10] = cfg.get("w_xreg", 0)
         self.w[7] = cfg.get("w_reenter", 0)
         self.w[8] = cfg.get("w_plain_gen", 0)
@@ -100,6 +101,7 @@ class Gen(object):
                 w[7] = 0
             if depth >= self.max_depth:
                 w[7] = 0
+                w[11] = 0
             if nopause and self.world == "async":
                 w[5] = 0
                 w[6] = 0
@@ -137,6 +139,11 @@ class Gen(object):
                             "inside": [self.plain_msg() for _ in range(st.choose(3))],
                             "suspended": [self.plain_msg() for _ in range(st.choose(3))],
                             "after": [self.plain_msg() for _ in range(st.choose(2))]})
+            elif k == 11:
+                # the ops of the body run inside an except block (error-handling code that logs, retries,
+                # reports): the exception being handled there is none of theirs
+                ops.append({"op": "handler", "cls": st.pick([c for c in self.exc if c not in ("StrRaises", "CollideErr")]),
+                            "body": self.body(depth + 1, nopause, in_action=in_action)})
             elif k == 9:
                 ops.append(self.destop())
             elif k == 10:
